@@ -501,3 +501,9 @@ for _k, _v in LEVEL_TEXTS.items():
     SPECS[_k].setdefault("level_text", _v)
 for _k in SPECS:
     SPECS[_k].setdefault("technique", "bounded model checking (CBMC 6.11: goto-cc build of a harness with the real translation units, SAT/SMT verdict over all symbolic inputs within stated bounds, unwinding assertions on; counterexamples replayed natively)")
+
+SPECS["C02"]["queries"] += [
+    Q("stamping_ids_and_colours", "c02_stamp.c", defs={"VERIF_MAX_NODES": 4, "VERIF_MAX_THREADS_EXP": 12}, unwind=3, timeout=600,
+      bounds="gvt.h stamping/receiving functions for every rank < 4, every thread id < 4096 (the real MAX_THREADS), both colours at send and at cancel time, sequence numbers < 2^16"),
+]
+SPECS["C02"]["encodes"] += ["gvt/gvt.h:gvt_remote_msg_send", "gvt_remote_anti_msg_send", "gvt_remote_msg_receive", "gvt_remote_anti_msg_receive"]
